@@ -83,6 +83,25 @@ def from_rows(tree):
     raise Unsupported('from_entry_tuples has an unknown shape: %s' % ' | '.join(srcs)[:200])
 
 
+def from_rows_argument_uses(tree):
+    """how often the body of from_entry_tuples mentions its Iterable argument: every mention is (at most) one
+    traversal, and a one-shot iterator survives exactly one.  Counted on the AST for ANY shape of the body; a body that
+    rebinds the name or hands it to something that is not known to traverse it once is Unsupported."""
+    f = find_function(tree, 'BNPDataClass.from_entry_tuples')
+    arg = f.args.args[1].arg
+    loads = stores = 0
+    for st in body_of(f):
+        for n in ast.walk(st):
+            if isinstance(n, ast.Name) and n.id == arg:
+                if isinstance(n.ctx, ast.Load):
+                    loads += 1
+                else:
+                    stores += 1
+    if stores:
+        raise Unsupported('from_entry_tuples rebinds its argument %s' % arg)
+    return loads
+
+
 # ------------------------------------------------------------------------------------------------ sort_by
 def sort_by(tree):
     """-> (coq text of the key rule over flags is_era / is_sa, stable?)"""
@@ -462,6 +481,7 @@ def gen():
     s = parse(SA)
     emit(defs, 'gen_from_rows_transposes', lambda: 'Definition gen_from_rows_transposes : bool := %s.\n' % ('true' if from_rows(t)[0] else 'false'))
     emit(defs, 'gen_from_rows_empty_rule', lambda: 'Definition gen_from_rows_empty_rule : bool := %s.\n' % ('true' if from_rows(t)[1] else 'false'))
+    emit(defs, 'gen_from_rows_argument_uses', lambda: 'Definition gen_from_rows_argument_uses : Z := %d.\n' % from_rows_argument_uses(t))
     emit(defs, 'gen_sort_key_rule', lambda: 'Definition gen_sort_key_rule (is_era : bool) (is_sa : bool) : Z :=\n  %s.\n' % sort_by(t)[0])
     emit(defs, 'gen_sort_stable', lambda: 'Definition gen_sort_stable : bool := %s.\n' % ('true' if sort_by(t)[1] else 'false'))
     emit(defs, 'gen_dispatch', lambda: dispatch(t))
